@@ -231,6 +231,7 @@ pub fn run<W: Write>(stream: &str, seed: u64, n: usize, w: &mut W) -> Result<(),
         "ctor" => ctor(&mut r, n, &mut o),
         "small" => small(n, &mut o),
         "corpus" => corpus(&mut o),
+        "grammar" => grammar(&mut r, &cfg, n, &mut o),
         _ => return Err(format!("unknown stream {stream:?}")),
     }
     let hist = o
@@ -1354,6 +1355,43 @@ fn small<W: Write>(n: usize, o: &mut Out<W>) {
                     }
                 }
             }
+        }
+    }
+}
+
+/// C11: ASCII formatter outputs (enum and lexical) against the published grammar.
+/// names restricted to letters, digits, '_' and inner '-' as the property says
+fn grammar_safe(text: &str) -> bool {
+    text.chars().all(|c| (c as u32) <= 0x1f2ff)
+}
+fn grammar<W: Write>(r: &mut Rng, cfg: &TermCfg, n: usize, o: &mut Out<W>) {
+    let ff = efmt("ascii").unwrap();
+    let lf = lfmt("ascii").unwrap();
+    let vocab = gen::vocab(lf, ff.atom.prefix_placeholder);
+    for i in 0..n {
+        let text = if i % 2 == 0 {
+            let v = gen::narsese(r, cfg);
+            o.count(&format!("kind.{}", kind_name(&v)));
+            ff.format_narsese(&v)
+        } else {
+            let v = gen::lnarsese(r, &vocab, cfg.max_depth, cfg.max_arity);
+            // the placeholder has no name in the published grammar (`"_"+`): a lexical placeholder atom
+            // carrying a name is outside the property's quantifier
+            let sv = ser::lnarsese(&v);
+            if sv.split("( LAtom 5f ").skip(1).any(|rest| !rest.starts_with("- ")) {
+                o.count("skipped.named-placeholder");
+                continue;
+            }
+            lf.format_narsese(&v)
+        };
+        if !grammar_safe(&text) {
+            o.count("skipped.non-letter-name");
+            continue;
+        }
+        o.checked("C11");
+        let out = o.run("peg", "ascii", &ser::hs(&text));
+        if !out.starts_with("ok ") {
+            o.fail("C11", "ascii", "the library's own ASCII lexical parser rejects the formatter's output", &ser::hs(&text));
         }
     }
 }
